@@ -9,7 +9,8 @@ import time
 
 VERIF = os.path.dirname(os.path.dirname(os.path.abspath(__file__)))
 SPEC = os.path.join(VERIF, "spec")
-WORK = os.path.join(VERIF, ".work")
+# scratch directory (VERIF_WORKDIR lets the seed audit run next to ordinary check runs without sharing scratch files)
+WORK = os.environ.get("VERIF_WORKDIR") or os.path.join(VERIF, ".work")
 JAR_CP = "/opt/veriftools/tla/tla2tools.jar:/opt/veriftools/tla/CommunityModules-deps.jar"
 
 
